@@ -20,7 +20,7 @@ Vars(k) ==
     [] k = "ip4"  -> {"plain", "opts", "frag"}
     [] k = "ip6"  -> {"plain", "hbh", "rt", "dst", "frag", "hbhdst", "nonext"}
     [] k = "udp"  -> {"-"}
-    [] k = "tcp"  -> {"plain", "eol", "opts", "sack", "mpcap", "mpjoin", "mpdss", "unk"}
+    [] k = "tcp"  -> {"plain", "eol", "opts", "sack", "mpcap", "mpjoin", "mpdss", "unk", "unkmax"}
     [] k = "echo" -> {"req", "rep"}
     [] k = "igmp" -> {"query", "report1", "report2", "leave", "v3report"}
     [] k = "gre"  -> {"plain", "key", "seq", "keyseq", "csum", "route"}
@@ -129,7 +129,7 @@ HLen(l) ==
     [] k = "ip6" -> (CASE v \in {"plain", "nonext"} -> 40 [] v = "hbhdst" -> 56 [] OTHER -> 48)
     [] k = "udp" -> 8
     [] k = "tcp" -> (CASE v = "plain" -> 20 [] v \in {"eol", "unk"} -> 24
-                       [] v \in {"opts", "mpdss"} -> 40 [] OTHER -> 32)
+                       [] v \in {"opts", "mpdss"} -> 40 [] v = "unkmax" -> 60 [] OTHER -> 32)
     [] k \in {"icmp", "echo", "unreach", "timex", "icmp6", "echo6", "unreach6", "toobig", "timex6", "eapol"} -> 4
     [] k = "igmp" -> IF v = "v3report" THEN 20 ELSE 8
     [] k = "gre" -> (CASE v = "plain" -> 4 [] v = "keyseq" -> 12 [] v = "route" -> 20 [] OTHER -> 8)
